@@ -24,7 +24,7 @@ def inputOfJson (j : Json) : Except String Input := do
     | .ok (.arr a) => (do let r ← a.toList.mapM pairList; pure (some r))
     | _ => pure none
   pure { root := getStrD j "root" "data", choices, choiceCols := cols, allowDup := optStr j "allow_dup",
-         survey, surveyCols, extHeader, extRows, f47Fixed := getBoolD j "f47_fixed" false }
+         survey, surveyCols, extHeader, extRows }
 
 def optJ (o : Option Str) : Json := match o with | some s => jstr s | none => Json.null
 
